@@ -152,9 +152,10 @@ func (am AppModule) ExportGenesis(ctx sdk.Context, cdc codec.JSONMarshaler) json
 	return cdc.MustMarshalJSON(gs)
 }
 
-// EndBlock processes module beginblock.
-func (am AppModule) EndBlock(_ sdk.Context, _ abci.RequestEndBlock) []abci.ValidatorUpdate {
-	return []abci.ValidatorUpdate{}
+// EndBlock returns the validator-set updates of the block and completes mature
+// unbonding delegations and redelegations (the Cosmos SDK staking end-blocker).
+func (am AppModule) EndBlock(ctx sdk.Context, req abci.RequestEndBlock) []abci.ValidatorUpdate {
+	return am.cosmosAppModule.EndBlock(ctx, req)
 }
 
 //____________________________________________________________________________
